@@ -229,6 +229,49 @@ pub fn expect_err(res: i32) -> Option<Out> {
     }
 }
 
+// ---- buffers that are stored inline (no heap block of their own) ---------
+// a10 does not implement `Buf` for byte arrays (their address changes when the
+// future moves). Should such an impl ever appear, the vectored write below
+// uses it: autoref specialisation picks `ViaBuf` only if `[u8; 24]: Buf`.
+struct Probe<T>(std::marker::PhantomData<T>);
+
+trait Inline: Sized {
+    fn make(tag: u8) -> Self;
+}
+
+impl Inline for [u8; 24] {
+    fn make(tag: u8) -> Self {
+        let mut a = [0u8; 24];
+        for (i, b) in a.iter_mut().enumerate() {
+            *b = tag.wrapping_add(i as u8);
+        }
+        a
+    }
+}
+
+trait ViaBuf {
+    fn vectored(&self, f: &'static AsyncFd, tag: u8) -> Option<Box<dyn DynTask>>;
+}
+
+impl<T: a10::io::Buf + Inline> ViaBuf for Probe<T> {
+    fn vectored(&self, f: &'static AsyncFd, tag: u8) -> Option<Box<dyn DynTask>> {
+        let fut_ = alloc::a10(|| f.write_vectored([T::make(tag), T::make(tag ^ 0x55)]));
+        Some(fut(fut_, |o, _| io_err(o).map(|n| Val::N(n as u64))))
+    }
+}
+
+trait ViaNone {
+    fn vectored(&self, _f: &'static AsyncFd, _tag: u8) -> Option<Box<dyn DynTask>> {
+        None
+    }
+}
+
+impl<T> ViaNone for &Probe<T> {}
+
+fn inline_vectored(f: &'static AsyncFd, tag: u8) -> Option<Box<dyn DynTask>> {
+    (&Probe::<[u8; 24]>(std::marker::PhantomData)).vectored(f, tag)
+}
+
 fn exp(f: impl Fn(&OpRecord, usize, i32, u32) -> Val + Send + 'static) -> Expect {
     Box::new(move |rec, i| {
         let (res, flags) = rec.cqes[i];
@@ -719,6 +762,14 @@ pub fn make(w: &mut World, kind: Kind, fd: Option<usize>, pool: Option<usize>, t
                     io_err(o).map(|(b, n)| Val::BytesFlags(vec![b], n as i32))
                 }),
                 exp(move |_, _, res, _| Val::BytesFlags(vec![copy.clone()], res)),
+            )
+        }
+        Kind::WriteVectored if tape::chance(site::BUF, 1, 4) && inline_vectored(f.unwrap(), tag).is_some() => {
+            // Only reachable if byte arrays implement `Buf` (they do not on the
+            // tree as pinned): buffers that live inline in the future.
+            (
+                inline_vectored(f.unwrap(), tag).unwrap(),
+                exp(|_, _, res, _| Val::N(res as u64)),
             )
         }
         Kind::WriteVectored => {
